@@ -146,7 +146,9 @@ class scrypt(  # type: ignore[misc]
 
         # make sure param combination is valid for scrypt()
         try:
-            _scrypt.validate(1 << cls.default_rounds, cls.block_size, cls.parallelism)
+            _scrypt.validate(
+                1 << subcls.default_rounds, subcls.block_size, subcls.parallelism
+            )
         except ValueError as err:
             raise ValueError(
                 "scrypt: invalid settings combination: " + str(err)
